@@ -991,6 +991,15 @@ class World:
         if not r.writable:
             # must be refused, nothing changes
             ok, exc = T.try_apply(r.obj, op)
+            if ok and op["op"] == "require_group":
+                # not a write if the group exists already (same in h5py on a read-only file)
+                try:
+                    tgt = r.ref[op["base"]][op["path"]]
+                    if hasattr(tgt, "keys"):
+                        self.probe("require_group_of_existing_while_readonly")
+                        return "noop"
+                except Exception:
+                    pass
             if ok:
                 raise Violation("C03", "write-while-readonly", f"{op['op']} succeeded although no writable container exists (mode {'r' if r.ro else 'r+'})", shape=op["op"])
             return f"refused:{exc}"
